@@ -88,7 +88,8 @@ theorem id_collision_extracts_hash_collision (H : List UInt8 → List UInt8) (h 
     split at hid1 <;> split at hid2 <;> simp_all
 
 /-- non-vacuity with the identity as "hash": positions 1 and 257 differ, and so do their ids -/
-example : mkId (fun m => m) (List.replicate 32 0) 1 7 ≠ mkId (fun m => m) (List.replicate 32 0) 257 7 := by decide
+example : ∃ a b, mkId (fun m => m) (List.replicate 32 0) 1 7 = .ok a ∧
+    mkId (fun m => m) (List.replicate 32 0) 257 7 = .ok b ∧ a ≠ b := ⟨_, _, rfl, rfl, by decide⟩
 
 /-! ## (c) configuration -/
 
@@ -122,7 +123,9 @@ theorem self_init_copy_matches_model : C01.selfInitFromConfig = selfInitFromConf
 theorem resolve_error_iff (ex authOk : Bool) (i : SystemSelfInit) :
     (∃ e, resolveModules ex authOk i = .error e) ↔ authOk = false := by
   unfold resolveModules
-  cases authOk <;> simp
+  cases authOk
+  · simp; exact ⟨.authModuleRejected, trivial⟩
+  · simp
 
 /-- **diagnostics_do_not_select_modules.** Two configurations that agree on `system_overrides` (i.e.
 differ at most in `enable_kernel_trace`, `enable_cost_breakdown`, `execution_trace`,
@@ -138,7 +141,7 @@ theorem diagnostics_do_not_select_modules (c1 c2 : ExecutionConfig)
   simp only at h
   subst h
   cases authOk
-  · simp [resolveModules, SystemSelfInit.new, Except.map]
+  · simp [resolveModules, Except.map]
   · cases ov1 with
     | none =>
       cases ex <;> cases kt1 <;> cases kt2 <;> cases et1 <;> cases et2 <;>
@@ -245,8 +248,8 @@ example :
       | _ => .ok s
     let en1 : EnabledModules := ⟨true, true, true, true, true, true⟩
     let en2 : EnabledModules := ⟨false, true, true, true, true, false⟩
-    (dispatch en1 hook (0, [])).map π = (dispatch en2 hook (0, [])).map π ∧
-    dispatch en1 hook (0, []) ≠ dispatch en2 hook (0, []) := by decide
+    (dispatch en1 hook (0, [])).toOption.map π = (dispatch en2 hook (0, [])).toOption.map π ∧
+    (dispatch en1 hook (0, [])).toOption ≠ (dispatch en2 hook (0, [])).toOption := by decide
 
 /-- The resolved module sets of two configurations that differ only in diagnostics satisfy the
 hypothesis `hen` of the two theorems above. -/
